@@ -115,6 +115,7 @@ type FuncContract struct {
 }
 
 type LoopContract struct {
+	Steps      []*Clause // must hold at every back edge (the iteration did not leave the loop)
 	Invariants []*Clause
 	Decreases  []Expr
 	DecClause  *Clause
@@ -808,6 +809,13 @@ func loadContracts(path string) (*Contracts, error) {
 						return nil, fail(err)
 					}
 					lc.Invariants = append(lc.Invariants, &Clause{Kind: "invariant", Tags: tags, Label: label, E: e, Loop: n, Line: rc.line, Text: ex})
+				case "step":
+					tags, label, ex := parseTagsLabel(body)
+					e, err := parseExprString(ex)
+					if err != nil {
+						return nil, fail(err)
+					}
+					lc.Steps = append(lc.Steps, &Clause{Kind: "step", Tags: tags, Label: label, E: e, Loop: n, Line: rc.line, Text: ex})
 				case "decreases":
 					tags, label, ex := parseTagsLabel(body)
 					var es []Expr
